@@ -376,7 +376,10 @@ class PersLandscapeExact(PersLandscape):
         if self.critical_pairs:
             return self.critical_pairs[depth]
         else:
-            return self.compute_landscape()[depth]
+            # compute_landscape() stores its result and returns nothing after
+            # actually computing it
+            self.compute_landscape()
+            return self.critical_pairs[depth]
 
     def p_norm(self, p: int = 2) -> float:
         """
